@@ -370,11 +370,11 @@ def label_ok(j, got, want, numeric, what, stage):
     return False
 
 
-def check_api(j, chart, exp, stage):
+def check_api(j, chart, exp, stage, plots=None):
     """the read API against the supplied data; plots in order, each plot reports the one category collection"""
     n = 0
     ec = exp["cats"]
-    for plot in chart.plots:
+    for plot in plots if plots is not None else chart.plots:
         try:
             series = list(plot.series)
         except NotImplementedError:
@@ -590,6 +590,13 @@ def replace_steps(j, chart, descs, state, rnd, fmt):
         except Exception:  # noqa  (a chart without plots has no chart_type; replace_data below reports it)
             rewriter = "none"
         cd = build_data(nd)  # outside the guard: a harness error must not look like a python-pptx failure
+        kept = []
+        try:  # plot proxies a caller obtained (and read through) before replacing the data
+            kept = list(chart.plots)
+            for p_ in kept:
+                _ = (list(p_.categories), p_.categories.flattened_labels, [s_.name for s_ in p_.series])
+        except Exception:  # noqa  (what cannot be read before is reported by the checks after the replace)
+            kept = []
         _, ok = guarded(j, lambda: chart.replace_data(cd), nd, "replace_data", state[1])
         j.acc.count("replaces")
         if not ok:
@@ -597,6 +604,10 @@ def replace_steps(j, chart, descs, state, rnd, fmt):
         j.acc.hit("replace_data")
         j.acc.hit("rewriter:" + rewriter)
         _, root = check_part(j, chart, nd, state[0], "replace")
+        if kept and len(kept) == len(plot_elements(root)) and all(p_._element.getparent() is not None for p_ in kept):
+            # the same plots still exist: read through the proxies obtained BEFORE the replace, they must report the new data
+            check_api(j, chart, expected(nd, read_chart(root)["date1904"]), "replace:kept-plot", plots=kept)
+            j.acc.count("replaced_charts_read_through_plots_obtained_before")
         check_untouched(j, before, root, len(nd["series"]))
         state[1] = len(nd["series"])
         if not plot_elements(root):
